@@ -21,7 +21,7 @@ RULE = (
     "fallback, or children added/removed between two writes; distinct = distinct canonical JSON of the case."
 )
 ASSUMPTIONS = [
-    "magnitudes limited to {0} + [1e-6, 1e9] so that D*w and sums neither overflow nor underflow",
+    "magnitudes limited to {0} + [1e-6, 1e9] (plus a 'tiny' profile scaling the children's supplies by 1e-300 with fitness values in {0} + [0.25, 2], still normal floats) so that D*w and sums neither overflow nor become subnormal",
     "sum of shares equals D within 1e-9*max(1,D); shares proportional within relative 1e-9",
     "mean within [min,max] of the children within relative 1e-9",
 ]
@@ -57,16 +57,25 @@ def child(draw, profile="free", common=None):
 def case(draw):
     kind = draw(st.sampled_from(["uniform", "supply", "utilisation", "allocation"]))
     n = draw(st.integers(0, 12))
-    profile = draw(st.sampled_from(["free", "free", "zero", "equal", "single"]))
+    profile = draw(st.sampled_from(["free", "free", "zero", "equal", "single", "tiny"]))
     common = {a: draw(magnitude()) for a in ATTRS}
     if profile == "single":
         children = [draw(child("zero")) for _ in range(n)]
         if n:
             i = draw(st.integers(0, n - 1))
             children[i] = draw(child("free"))
+    elif profile == "tiny":
+        # tiny (but normal, not subnormal) magnitudes: weights around 1e-300 with ordinary demands
+        children = [draw(child("free")) for _ in range(n)]
+        for c in children:
+            c["supply"] = c["supply"] * 1e-300  # only the supply: products of two tiny attributes would underflow
+            for a in ("utilisation", "allocation"):  # keep supply*fitness products normal floats
+                c[a] = draw(st.sampled_from([0, 0.25, 0.5, 1, 1.0, 2]))
     else:
         children = [draw(child(profile, common)) for _ in range(n)]
     D = st.one_of(st.just(0), st.integers(0, 1000), st.floats(1e-6, 1e9), st.floats(1e-6, 10))
+    if profile == "tiny":
+        D = st.one_of(D, st.sampled_from([1e12, 1e15, 3e14]))  # large demands over tiny weights: D/W alone would overflow, D*w/W does not
     op = st.one_of(
         st.tuples(st.just("w"), D),
         st.tuples(st.just("w"), D),
